@@ -2,7 +2,9 @@
   C05 — Each manipulation call has exactly the effect an ordered-tree model predicts.
   Property theorems only.  The specification is `Model/FspecSpec.lean` (`specMove`, `specRemove`,
   `specDetach`, `specUnwrap`, `specWrap`, `specReplace`; `Forest.content` = the forest with the
-  handles forgotten); proofs are in `Lemmas/Fspec*.lean`.
+  handles forgotten) and `Model/FspecSpec2.lean` (`specReplaceX`, `specClone`, `specMapInsert`,
+  `specMapRemove`, `specSetValue`, `specTextContentSet`); proofs are in `Lemmas/Fspec*.lean`
+  (`clone_node` rests on the C12 development, the map updates on the C11 development).
 -/
 import XotModel.Model.FspecSpec
 import XotModel.Lemmas.ForestBasic
@@ -12,6 +14,17 @@ import XotModel.Lemmas.FspecContent
 import XotModel.Lemmas.FspecString
 import XotModel.Lemmas.FspecUnwrap
 import XotModel.Lemmas.FspecWrap
+import XotModel.Model.FspecSpec2
+import XotModel.Model.FspecSpec3
+import XotModel.Lemmas.FspecRepl4
+import XotModel.Lemmas.FspecReplFrame3
+import XotModel.Lemmas.FspecClone
+import XotModel.Lemmas.FspecMapUpd3
+import XotModel.Lemmas.FspecSet2
+import XotModel.Lemmas.FspecPairRemove
+import XotModel.Lemmas.FspecPairAppend4
+import XotModel.Lemmas.FspecPairAfter3
+import XotModel.Lemmas.FspecPairBefore4
 
 namespace XotModel.Props
 open XotModel XotModel.Spec
@@ -324,5 +337,395 @@ example :
     f.inv = true ∧ (f.append 4 2).2 = .ok ∧ (f.append 4 2).1.value? 1 = some (.text ['x', 'y']) ∧
       (f.append 4 2).1.isLive 3 = false := by
   decide
+
+/-! ### replace
+
+  `specReplace keep a b f` (`FspecSpec.lean`): the replacing subtree `b` is cut from wherever it is
+  (the text nodes it separated there are merged), the replaced subtree `a` disappears, `b` stands
+  where `a` stood, and the text runs of the two touched child lists are merged — three-way
+  `x b z` when `b` is a text node put between two text nodes.  `specReplaceX` fixes the survivor
+  rule xot follows: `b` already next to `a` — the call is `remove(a)` and the earlier node of the
+  merged pair survives (also when it is the replacing node); otherwise `b` is moved and, like
+  every moved node, never survives a merge (`Keep.resident b`).  Proved for all geometries: `b`
+  parentless, in another tree, under another parent, or a sibling of `a`; `a` between two text
+  nodes (where `remove_subtree(a)` leaves an intermediate forest with two adjacent text nodes) or
+  not; consolidation on or off. -/
+
+/-- A successful `replace(a, b)` is the specification, handle for handle. -/
+theorem C05_replace_exact {f : Forest} {a b : Nat} (inv : f.Inv) (norm : f.Normal)
+    (hok : (f.replace a b).2 = .ok) :
+    (f.replace a b).1 = specReplaceX a b f :=
+  replace_spec inv norm hok
+
+/-- … and, handles forgotten, the specification with the survivor rule of the property text. -/
+theorem C05_replace {f : Forest} {a b : Nat} (inv : f.Inv) (norm : f.Normal)
+    (hok : (f.replace a b).2 = .ok) :
+    (f.replace a b).1.content = (specReplace Keep.earlier a b f).content := by
+  rw [replace_spec inv norm hok]
+  obtain ⟨q, vq, l, A, r, t, ra, _⟩ := replace_unpack inv hok
+  exact specReplace_content_keep inv ra _ _
+
+/-- Exactly the replaced subtree is destroyed: handles stay distinct, no handle is created (every
+    handle afterwards is an old one outside the replaced subtree `A`, so all of `A` is gone), and
+    every other node that is not a text node is still there; no handle is handed out.  (A text
+    node can disappear only by being merged into its left neighbour, as in every move — precisely:
+    only if it is `b` itself, a child of `a`'s parent or a child of `b`'s old parent.) -/
+theorem C05_replace_destroys {f : Forest} {a b : Nat} {A : HTree} (inv : f.Inv) (norm : f.Normal)
+    (hok : (f.replace a b).2 = .ok) (hA : f.get? a = some A) :
+    (f.replace a b).1.allHandles.Nodup ∧
+    (∀ h ∈ (f.replace a b).1.allHandles, h ∈ f.allHandles ∧ h ∉ HTree.handles A) ∧
+    (∀ h ∈ f.allHandles, h ∉ HTree.handles A → f.textOf h = none → h ∈ (f.replace a b).1.allHandles) ∧
+    (∀ h ∈ f.allHandles, h ∉ HTree.handles A → h ≠ b →
+      (∀ p, f.parent? h = some p → some p ≠ f.parent? a ∧ some p ≠ f.parent? b) →
+      h ∈ (f.replace a b).1.allHandles) ∧
+    (f.replace a b).1.next = f.next := by
+  rw [replace_spec inv norm hok]
+  obtain ⟨q, vq, l, A', r, t, ra, _⟩ := replace_unpack inv hok
+  have e : A' = A := by
+    have := ra.live_a; rw [hA] at this; exact (Option.some.inj this).symm
+  subst e
+  have hq : f.parent? a = some q := Forest.parent?_of_ctx ra.ctx_a
+  refine ⟨specReplace_nodup _ inv ra, specReplace_handles_sub _ inv ra, specReplace_handles_kept _ inv ra, ?_,
+    (specReplace_flags _ inv ra).1⟩
+  intro h hh hnA hb hp
+  apply specReplace_handles_kept_precise _ inv ra hh hnA
+  right; right
+  refine ⟨hb, fun p e => ?_⟩
+  obtain ⟨p1, p2⟩ := hp p e
+  exact ⟨fun e' => p1 (by rw [hq, e']), p2⟩
+
+/-- Frame: a node outside the replacing subtree `t` whose parent is neither `a`'s parent nor
+    `b`'s old parent (and lies neither in `t` nor in the replaced subtree `A`) keeps its parent,
+    its value and the handles of its left and right siblings. -/
+theorem C05_frame_replace {f : Forest} {a b q : Nat} {A t : HTree} (inv : f.Inv) (norm : f.Normal)
+    (hok : (f.replace a b).2 = .ok) (hA : f.get? a = some A) (hb : f.get? b = some t)
+    (hq : f.parent? a = some q)
+    {x : Nat} {cx : HTree.Ctx} (hx : f.ctx? x = some cx)
+    (h1 : cx.parent ≠ q) (h2 : some cx.parent ≠ f.parent? b) (h3 : cx.parent ∉ HTree.handles t)
+    (h4 : x ∉ HTree.handles t) (h5 : cx.parent ∉ HTree.handles A) :
+    ∃ cx', (f.replace a b).1.ctx? x = some cx' ∧ cx'.shape = cx.shape := by
+  rw [replace_spec inv norm hok]
+  obtain ⟨q', vq, l, A', r, t', ra, _⟩ := replace_unpack inv hok
+  have e1 : A' = A := by
+    have := ra.live_a; rw [hA] at this; exact (Option.some.inj this).symm
+  have e2 : t' = t := by
+    have := ra.hgb; rw [hb] at this; exact (Option.some.inj this).symm
+  have e3 : q' = q := by
+    have := Forest.parent?_of_ctx ra.ctx_a; rw [hq] at this; exact (Option.some.inj this).symm
+  subst e1 e2 e3
+  exact frame_specReplace _ inv ra hx h1 h2 h3 h4 h5
+
+/-- Non-vacuity and the three-way merge: `<p>x<a/>z</p>` and a parentless text node `y`:
+    `replace(a, y)` gives `<p>xyz</p>` in ONE text node, the earlier one (xot f7b549c); the replaced
+    node between two text nodes and a replacing element whose removal makes its own neighbours
+    merge (`u<b/>v` elsewhere). -/
+example :
+    let f : Forest := { roots := [.node 0 (.element 2) [.node 1 (.text ['x']) [], .node 2 (.element 3) [],
+                          .node 3 (.text ['z']) []], .node 4 (.text ['y']) [],
+                          .node 5 (.element 6) [.node 6 (.text ['u']) [], .node 7 (.element 9) [], .node 8 (.text ['v']) []]],
+                        next := 9 }
+    f.inv = true ∧ (f.replace 2 4).2 = .ok ∧
+      (f.replace 2 4).1.content = [.node (.element 2) [.node (.text ['x', 'y', 'z']) []],
+        .node (.element 6) [.node (.text ['u']) [], .node (.element 9) [], .node (.text ['v']) []]] ∧
+      (f.replace 2 4).1.value? 1 = some (.text ['x', 'y', 'z']) ∧
+      (f.replace 2 4).1 = specReplaceX 2 4 f ∧
+      (f.replace 2 7).2 = .ok ∧
+      (f.replace 2 7).1.content = [.node (.element 2) [.node (.text ['x']) [], .node (.element 9) [], .node (.text ['z']) []],
+        .node (.text ['y']) [], .node (.element 6) [.node (.text ['u', 'v']) []]] ∧
+      (f.replace 2 7).1 = specReplaceX 2 7 f := by
+  decide
+
+/-! ### clone_node
+
+  "clone_node adds exactly one copy": a corollary of the C12 development (`cloneNode_full`). -/
+
+/-- `clone_node` of a live node cannot panic; the old trees stay, unchanged and in order; exactly
+    one tree is added after them, its root is the returned node, all its handles are new; with
+    handles forgotten the forest is the old content followed by the copy (`specCloneContent`), and
+    handle for handle it is `specClone` (the structural copy numbered from `f.next`). -/
+theorem C05_clone_node {f : Forest} {n : Nat} {src : HTree} (inv : f.Inv) (hsrc : f.get? n = some src) :
+    ∃ c C, (f.cloneNode n).2 = some c ∧ C.handle = c ∧
+      (f.cloneNode n).1.roots = f.roots ++ [C] ∧
+      (f.cloneNode n).1.content = specCloneContent n f ∧
+      (∀ h ∈ HTree.handles C, f.next ≤ h ∧ h < (f.cloneNode n).1.next ∧ h ∉ f.allHandles) ∧
+      (f.cloneNode n).1.consolidation = f.consolidation ∧ (f.cloneNode n).1.everOff = f.everOff ∧
+      (f.cloneNode n).1.corrupt = f.corrupt :=
+  cloneNode_spec' inv hsrc
+
+theorem C05_clone_node_exact {f : Forest} {n : Nat} {src : HTree} (inv : f.Inv) (hsrc : f.get? n = some src) :
+    (f.cloneNode n).1 = specClone n f :=
+  cloneNode_eq_specClone inv hsrc
+
+/-- In a forest without adjacent text nodes the copy is literally the source. -/
+theorem C05_clone_node_normal {f : Forest} {n : Nat} {src : HTree} (inv : f.Inv) (norm : f.Normal)
+    (hsrc : f.get? n = some src) :
+    (f.cloneNode n).1.content = f.content ++ [src.erase] := by
+  obtain ⟨c, C, _, _, _, h, _⟩ := cloneNode_spec' inv hsrc
+  rw [h, specCloneContent_normal norm hsrc]
+
+example :
+    let f : Forest := { roots := [.node 0 (.element 2) [.node 1 (.attribute 5 ['v']) [], .node 2 (.text ['x']) [],
+                          .node 3 (.element 3) []]], next := 4 }
+    f.inv = true ∧ (f.cloneNode 0).2 = some 5 ∧
+      (f.cloneNode 0).1.content = f.content ++ f.content ∧ (f.cloneNode 0).1 = specClone 0 f := by
+  decide +kernel
+
+/-! ### Attribute and namespace updates touch exactly one entry
+
+  `insert(key, value)` / `remove(key)` on the attribute or namespace view `k` of an element `e`
+  (`set_attribute`, `set_namespace`, `remove_attribute`, …). -/
+
+/-- `insert` is the specification: one edit of `e`'s child list. -/
+theorem C05_map_insert {f : Forest} {k : Forest.MapKind} {e : Nat} {entry : Value} (inv : f.Inv)
+    (he : f.isElement e = true) (hm : k.matches entry = true) :
+    f.mapInsert k e entry = (specMapInsert k e entry f, .ok) :=
+  mapInsert_spec inv he hm
+
+/-- … the child list of `e` afterwards: an existing key keeps its node (handle, place), only the
+    payload changes, nothing is created; a new key is carried by exactly one new leaf `f.next`
+    placed after the view's entries; every other child is the same node at the same place. -/
+theorem C05_map_insert_entry {f : Forest} {k : Forest.MapKind} {e : Nat} {entry v : Value} {ks : List HTree}
+    (inv : f.Inv) (he : f.isElement e = true) (hm : k.matches entry = true)
+    (hg : f.get? e = some (.node e v ks)) :
+    (∀ n, ks.find? (isEntry k (Forest.entryKey entry)) = some n →
+      ∃ X Y, ks = X ++ n :: Y ∧ (∀ c ∈ X, isEntry k (Forest.entryKey entry) c = false) ∧
+        (f.mapInsert k e entry).1.get? e =
+          some (.node e v (X ++ n.setValue (Forest.entryUpdate n.value entry) :: Y)) ∧
+        (f.mapInsert k e entry).1.next = f.next) ∧
+    (ks.find? (isEntry k (Forest.entryKey entry)) = none →
+      ∃ A B, ks = A ++ B ∧ (∀ c ∈ A, kidRank c ≤ viewRank k) ∧ (∀ c ∈ B, viewRank k < kidRank c) ∧
+        (f.mapInsert k e entry).1.get? e = some (.node e v (A ++ .node f.next entry [] :: B)) ∧
+        (f.mapInsert k e entry).1.next = f.next + 1) :=
+  mapInsert_kids inv he hm hg
+
+/-- `remove` is the specification; the child list of `e` loses exactly the entry with the key. -/
+theorem C05_map_remove {f : Forest} {k : Forest.MapKind} {e key : Nat} (inv : f.Inv)
+    (he : f.isElement e = true) :
+    f.mapRemove k e key = (specMapRemove k e key f, .ok) :=
+  mapRemove_spec inv he
+
+theorem C05_map_remove_entry {f : Forest} {k : Forest.MapKind} {e key : Nat} {v : Value} {ks : List HTree}
+    (inv : f.Inv) (he : f.isElement e = true) (hg : f.get? e = some (.node e v ks)) :
+    (∀ n, ks.find? (isEntry k key) = some n →
+      ∃ X Y, ks = X ++ n :: Y ∧ (f.mapRemove k e key).1.get? e = some (.node e v (X ++ Y))) ∧
+    (ks.find? (isEntry k key) = none → (f.mapRemove k e key).1.get? e = some (.node e v ks)) ∧
+    (f.mapRemove k e key).1.next = f.next :=
+  mapRemove_kids inv he hg
+
+/-- Frame of both updates: every node under another parent keeps parent, value and sibling
+    handles; the parentless trees are as many as before and those not holding `e` are identical. -/
+theorem C05_map_frame {f : Forest} {k : Forest.MapKind} {e : Nat} (inv : f.Inv) (he : f.isElement e = true)
+    {x : Nat} {cx : HTree.Ctx} (hx : f.ctx? x = some cx) (hne : cx.parent ≠ e) :
+    (∀ entry, k.matches entry = true →
+      ∃ cx', (f.mapInsert k e entry).1.ctx? x = some cx' ∧ cx'.shape = cx.shape) ∧
+    (∀ key, ∃ cx', (f.mapRemove k e key).1.ctx? x = some cx' ∧ cx'.shape = cx.shape) := by
+  constructor
+  · intro entry hm
+    rw [mapInsert_spec inv he hm]
+    exact specMapInsert_ctx_frame inv he hm hx hne
+  · intro key
+    rw [mapRemove_spec inv he]
+    exact specMapRemove_ctx_frame inv he hx hne
+
+theorem C05_map_roots_frame {f : Forest} {k : Forest.MapKind} {e : Nat} (inv : f.Inv) (he : f.isElement e = true)
+    {i : Nat} {r : HTree} (hr : f.roots[i]? = some r) (her : e ∉ HTree.handles r) :
+    (∀ entry, k.matches entry = true → (f.mapInsert k e entry).1.roots[i]? = some r) ∧
+    (∀ key, (f.mapRemove k e key).1.roots[i]? = some r) := by
+  constructor
+  · intro entry hm
+    rw [mapInsert_spec inv he hm]
+    exact (specMapInsert_roots_frame k e entry f).2 i r hr her
+  · intro key
+    rw [mapRemove_spec inv he]
+    exact (specMapRemove_roots_frame k e key f).2 i r hr her
+
+example :
+    let f : Forest := { roots := [.node 0 (.element 2) [.node 1 (.namespace 2 3) [], .node 2 (.attribute 5 ['v']) [],
+                          .node 3 (.text ['x']) []]], next := 4 }
+    f.inv = true ∧
+      (f.mapInsert .attributes 0 (.attribute 5 ['w'])).1.content =
+        [.node (.element 2) [.node (.namespace 2 3) [], .node (.attribute 5 ['w']) [], .node (.text ['x']) []]] ∧
+      (f.mapInsert .attributes 0 (.attribute 6 ['w'])).1.content =
+        [.node (.element 2) [.node (.namespace 2 3) [], .node (.attribute 5 ['v']) [], .node (.attribute 6 ['w']) [],
+          .node (.text ['x']) []]] ∧
+      (f.mapRemove .namespaces 0 2).1.content =
+        [.node (.element 2) [.node (.attribute 5 ['v']) [], .node (.text ['x']) []]] := by
+  decide
+
+/-! ### Setters: exactly one value changes
+
+  `specSetValue n v f`: the node `n` gets the value `v`; nothing else. -/
+
+theorem C05_setText {f : Forest} {n : Nat} {s : Str} (hok : (f.setText n s).2 = .ok) :
+    (f.setText n s).1 = specSetValue n (.text s) f ∧ ∃ old, f.value? n = some (.text old) :=
+  setText_spec hok
+
+theorem C05_setComment {f : Forest} {n : Nat} {s : Str} (hok : (f.setComment n s).2 = .ok) :
+    (f.setComment n s).1 = specSetValue n (.comment s) f ∧ ∃ old, f.value? n = some (.comment old) :=
+  setComment_spec hok
+
+theorem C05_setPiData {f : Forest} {n : Nat} {d : Option Str} (hok : (f.setPiData n d).2 = .ok) :
+    ∃ t old, f.value? n = some (.pi t old) ∧ (f.setPiData n d).1 = specSetValue n (.pi t (piData d)) f :=
+  setPiData_spec hok
+
+theorem C05_setElementName {f : Forest} {n name : Nat} (hok : (f.setElementName n name).2 = .ok) :
+    (f.setElementName n name).1 = specSetValue n (.element name) f ∧ ∃ old, f.value? n = some (.element old) :=
+  setElementName_spec hok
+
+/-- What `specSetValue` leaves alone: the handles and their order, the position of every node
+    (parent and sibling handles), every other value, every subtree not holding `n`, the counters
+    and flags. -/
+theorem C05_setValue_frame (f : Forest) (n : Nat) (v : Value) :
+    (specSetValue n v f).allHandles = f.allHandles ∧
+    (∀ x, ((specSetValue n v f).ctx? x).map HTree.Ctx.place = (f.ctx? x).map HTree.Ctx.place) ∧
+    (∀ x, x ≠ n → (specSetValue n v f).value? x = f.value? x) ∧
+    (f.isLive n = true → (specSetValue n v f).value? n = some v) ∧
+    (∀ x t, f.get? x = some t → n ∉ HTree.handles t → (specSetValue n v f).get? x = some t) ∧
+    (specSetValue n v f).next = f.next ∧ (specSetValue n v f).consolidation = f.consolidation :=
+  ⟨specSetValue_allHandles n v f, fun x => specSetValue_ctx f n x v,
+    fun _ hx => specSetValue_value_other v hx, fun hl => specSetValue_value_self v hl,
+    fun _ _ hg hn => specSetValue_get_far v hg hn, rfl, rfl⟩
+
+/-- `text_content_mut(n).set(s)`: an element without normal children gains exactly one text child
+    (handle `f.next`, placed last); a node whose only normal child is a text node has that node's
+    data replaced; the call cannot panic, and a refusal changes nothing. -/
+theorem C05_textContentSet {f : Forest} {n : Nat} {s : Str} (inv : f.Inv)
+    (hok : (f.textContentSet n s).2 = .ok) :
+    (f.textContentSet n s).1 = specTextContentSet n s f :=
+  textContentSet_spec inv hok
+
+theorem C05_textContentSet_total {f : Forest} (inv : f.Inv) (n : Nat) (s : Str) :
+    (f.textContentSet n s).2 ≠ .panic ∧ ((f.textContentSet n s).2 ≠ .ok → (f.textContentSet n s).1 = f) :=
+  ⟨textContentSet_no_panic inv n s, textContentSet_refused inv⟩
+
+example :
+    let f : Forest := { roots := [.node 0 (.element 2) [.node 1 (.attribute 5 ['v']) [], .node 2 (.element 3) [.node 3 (.text ['x']) []]],
+                          .node 4 (.comment ['c']) [], .node 5 (.element 3) []], next := 6 }
+    f.inv = true ∧ (f.setText 3 ['y']).2 = .ok ∧ (f.setComment 4 ['d']).2 = .ok ∧ (f.setElementName 2 6).2 = .ok ∧
+      (f.textContentSet 2 ['k']).1.content =
+        [.node (.element 2) [.node (.attribute 5 ['v']) [], .node (.element 3) [.node (.text ['k']) []]],
+          .node (.comment ['c']) [], .node (.element 3) []] ∧
+      (f.textContentSet 5 ['k']).1.content =
+        [.node (.element 2) [.node (.attribute 5 ['v']) [], .node (.element 3) [.node (.text ['x']) []]],
+          .node (.comment ['c']) [], .node (.element 3) [.node (.text ['k']) []]] ∧
+      (f.textContentSet 0 ['k']).2 = .err .invalidOperation := by
+  decide
+
+/-! ### Forests that already hold adjacent text nodes (after `set_text_consolidation(false)` … `(true)`)
+
+  Outside `Forest.Normal` the specification of `FspecSpec.lean` (merge the maximal runs) is not
+  what xot does: xot merges exactly the pair that becomes adjacent.  `Model/FspecSpec3.lean` has
+  that PAIR reading of "text nodes that become adjacent are merged" (`specMoveP`, `specRemoveP`,
+  `specDetachP`: the two neighbours a leaving node separated, the earlier surviving; the moved text
+  node with its new left neighbour if that is text, else with its new right one, the neighbour
+  surviving).  Below it is proved for EVERY forest with `Forest.Inv` — no `Forest.Normal` — for
+  `remove`, `detach`, `prepend`, `insert_after`, and for `append` / `insert_before` outside ONE
+  corner (`Spec.selfMerge`), in which the real code loses character data: a recorded finding
+  (`C05:move-changes-character-data`), with the deviation proved (`C05_selfMerge_*`, closed
+  witness).  `element_unwrap`, `element_wrap` and `replace` are proved under `Forest.Normal` only. -/
+
+theorem C05_pair_remove {f : Forest} {n : Nat} (inv : f.Inv) (live : f.isLive n = true) :
+    (f.remove n).1 = specRemoveP n f :=
+  remove_pair inv live
+
+theorem C05_pair_detach {f : Forest} {n : Nat} (inv : f.Inv) (live : f.isLive n = true) :
+    (f.detach n).1 = specDetachP n f :=
+  detach_pair inv live
+
+theorem C05_pair_prepend {f : Forest} {p c : Nat} (inv : f.Inv) (hok : (f.prepend p c).2 = .ok) :
+    (f.prepend p c).1 = specMoveP (.firstNormalChildOf p) c f :=
+  prepend_pair inv hok
+
+theorem C05_pair_insertAfter {f : Forest} {r c : Nat} (inv : f.Inv) (hok : (f.insertAfter r c).2 = .ok) :
+    (f.insertAfter r c).1 = specMoveP (.after r) c f :=
+  insertAfter_pair inv hok
+
+/-- The full-strength statements for `append` and `insert_before` (false of the code, see below). -/
+def C05_pair_appendStatement : Prop :=
+  ∀ (f : Forest) (p c : Nat), f.Inv → (f.append p c).2 = .ok → (f.append p c).1 = specMoveP (.lastChildOf p) c f
+def C05_pair_insertBeforeStatement : Prop :=
+  ∀ (f : Forest) (r c : Nat), f.Inv → (f.insertBefore r c).2 = .ok →
+    (f.insertBefore r c).1 = specMoveP (.before r) c f
+
+/-- `append` / `insert_before` outside the corner `selfMerge` (a decidable condition on the forest
+    before the call: the moved TEXT node stands between two text nodes and, once those are merged,
+    already occupies the requested place). -/
+theorem C05_pair_append_partial {f : Forest} {p c : Nat} (inv : f.Inv) (hok : (f.append p c).2 = .ok)
+    (hsm : selfMerge f (.lastChildOf p) c = false) :
+    (f.append p c).1 = specMoveP (.lastChildOf p) c f :=
+  append_pair inv hok hsm
+
+theorem C05_pair_insertBefore_partial {f : Forest} {r c : Nat} (inv : f.Inv)
+    (hok : (f.insertBefore r c).2 = .ok) (hsm : selfMerge f (.before r) c = false) :
+    (f.insertBefore r c).1 = specMoveP (.before r) c f :=
+  insertBefore_pair inv hok hsm
+
+/-- In the corner the call succeeds and DESTROYS the moved text node (its data is lost). -/
+theorem C05_selfMerge_append {f : Forest} {p c : Nat} (inv : f.Inv)
+    (h : selfMerge f (.lastChildOf p) c = true) :
+    (f.append p c).2 = .ok ∧ (f.append p c).1.isLive c = false :=
+  append_selfMerge inv h
+
+theorem C05_selfMerge_insertBefore {f : Forest} {r c : Nat} (inv : f.Inv)
+    (h : selfMerge f (.before r) c = true) :
+    (f.insertBefore r c).2 = .ok ∧ (f.insertBefore r c).1.isLive c = false :=
+  insertBefore_selfMerge inv h
+
+/-- Non-vacuity: a forest with adjacent text nodes on which the pair reading differs from the
+    whole-run reading (`remove` of the element in `w x <b/> y z`: only `x`, `y` are merged). -/
+example :
+    let f : Forest := { roots := [.node 0 (.element 2) [.node 1 (.text ['w']) [], .node 2 (.text ['x']) [],
+        .node 3 (.element 3) [], .node 4 (.text ['y']) [], .node 5 (.text ['z']) []], .node 6 (.text ['q']) []],
+                        next := 7, consolidation := true, everOff := true }
+    f.inv = true ∧
+      (f.remove 3).1.content = [.node (.element 2) [.node (.text ['w']) [], .node (.text ['x', 'y']) [],
+        .node (.text ['z']) []], .node (.text ['q']) []] ∧
+      (f.remove 3).1 = specRemoveP 3 f ∧ (f.remove 3).1 ≠ specRemove Keep.earlier 3 f ∧
+      (f.insertAfter 1 6).2 = .ok ∧ (f.insertAfter 1 6).1 = specMoveP (.after 1) 6 f ∧
+      (f.prepend 0 6).2 = .ok ∧ (f.prepend 0 6).1 = specMoveP (.firstNormalChildOf 0) 6 f ∧
+      (f.append 0 6).2 = .ok ∧ selfMerge f (.lastChildOf 0) 6 = false ∧
+      (f.insertBefore 3 6).2 = .ok ∧ selfMerge f (.before 3) 6 = false := by
+  decide
+
+/-- `<e>abcd</e>` as FOUR adjacent text nodes (consolidation was off when they were appended, and is
+    on again). -/
+def selfMergeWitness : Forest :=
+  { roots := [.node 0 (.element 2) [.node 1 (.text ['a']) [], .node 2 (.text ['b']) [],
+      .node 3 (.text ['c']) [], .node 4 (.text ['d']) []]], next := 5, consolidation := true, everOff := true }
+
+/-- `insert_before(d, b)`: `a` and `c` are merged, `b` then already stands before `d`, is taken for
+    its own text neighbour, "merged into itself" and destroyed — the data `b` is lost.  The pair
+    reading gives `acb`, `d`.  Likewise `append(e, b)` on the children `a b c`. -/
+theorem C05_selfmerge_loses_text_witness :
+    selfMergeWitness.inv = true ∧
+    (selfMergeWitness.insertBefore 4 2).2 = .ok ∧
+    (selfMergeWitness.insertBefore 4 2).1.content =
+      [.node (.element 2) [.node (.text ['a', 'c']) [], .node (.text ['d']) []]] ∧
+    (selfMergeWitness.insertBefore 4 2).1.isLive 2 = false ∧
+    (specMoveP (.before 4) 2 selfMergeWitness).content =
+      [.node (.element 2) [.node (.text ['a', 'c', 'b']) [], .node (.text ['d']) []]] ∧
+    selfMerge selfMergeWitness (.before 4) 2 = true ∧
+    (let g : Forest := { selfMergeWitness with roots := [.node 0 (.element 2) [.node 1 (.text ['a']) [],
+        .node 2 (.text ['b']) [], .node 3 (.text ['c']) []]] }
+     (g.append 0 2).2 = .ok ∧ (g.append 0 2).1.content = [.node (.element 2) [.node (.text ['a', 'c']) []]] ∧
+     selfMerge g (.lastChildOf 0) 2 = true) := by
+  decide
+
+/-- `<e>abc</e>` as three adjacent text nodes. -/
+def selfMergeWitness2 : Forest :=
+  { roots := [.node 0 (.element 2) [.node 1 (.text ['a']) [], .node 2 (.text ['b']) [],
+      .node 3 (.text ['c']) []]], next := 4, consolidation := true, everOff := true }
+
+/-- The full-strength statements are false of the code. -/
+theorem C05_pair_statements_false : ¬ C05_pair_appendStatement ∧ ¬ C05_pair_insertBeforeStatement := by
+  constructor
+  · intro h
+    have := h selfMergeWitness2 0 2 ((Forest.inv_iff _).1 (by decide)) (by decide)
+    revert this
+    decide
+  · intro h
+    have := h selfMergeWitness 4 2 ((Forest.inv_iff _).1 (by decide)) (by decide)
+    revert this
+    decide
 
 end XotModel.Props
